@@ -183,8 +183,9 @@ impl Check for C06 {
             Tier::Thorough => Budget { wall_secs: 900, max_cases: 100_000, checkpoint_every: 1, workers: 16 },
         }
     }
-    fn generate(&self, seed: u64, idx: u64, _tier: Tier) -> Value {
+    fn generate(&self, seed: u64, idx: u64, tier: Tier) -> Value {
         let mut rng = rng_from(case_seed(seed ^ 0xC06, idx));
+        let deep = tier == Tier::Thorough && mix(0xDEE9, idx) % 3 == 0;
         // real-membership family (see C01): the view the level is counted against is what the
         // node's own membership layer reported around the call
         if mix(0xFA06, idx) % 8 == 5 {
@@ -198,7 +199,12 @@ impl Check for C06 {
             }
             return serde_json::to_value(sc).unwrap();
         }
-        let k = GenKnobs { max_nodes: 5, max_ops: 30, span_ms: 15_000, level_bias_none: 0.08, ghosts: 0.0, big_bulk: 0.07 };
+        // thorough tier: a third of these cases are deeper (up to 8 nodes, 70 operations, 40 s)
+        let k = if deep {
+            GenKnobs { max_nodes: 8, max_ops: 70, span_ms: 40_000, level_bias_none: 0.08, ghosts: 0.0, big_bulk: 0.07 }
+        } else {
+            GenKnobs { max_nodes: 5, max_ops: 30, span_ms: 15_000, level_bias_none: 0.08, ghosts: 0.0, big_bulk: 0.07 }
+        };
         let mut sc = gen_cluster_scenario(&mut rng, &k);
         // more refusing replicas
         for n in sc.cfg.nodes.iter_mut() {
